@@ -26,6 +26,7 @@ ap.add_argument("--also", default="", help="comma separated further property ids
 ap.add_argument("--search", type=int, default=0, help="search unit indices index..index+N-1 for the first violation matching --sig")
 ap.add_argument("--sig", default="", help="JSON list: required violation signature")
 ap.add_argument("--line", default="", help="explicit 'fixed:' / 'known:' line")
+ap.add_argument("--scan", type=int, nargs=2, default=None, help="(internal) scan START N units and report the first match")
 a = ap.parse_args()
 if a.src:
     os.environ["VERIF_REPO_SRC"] = a.src
@@ -54,17 +55,113 @@ def match(o):
     return o.known == want_known
 
 
-for index in range(a.index, a.index + max(a.search, 1)):
-    if hasattr(mod, "unit"):
-        for tp, o in mod.unit(index, a.seed, a.tier):
+import signal  # noqa: E402
+
+
+class UnitTimeout(Exception):
+    pass
+
+
+def _alarm(*_a):
+    raise UnitTimeout()
+
+
+signal.signal(signal.SIGALRM, _alarm)
+
+
+def _scan_child(start: int, n: int) -> None:
+    """--scan mode (a subprocess): print 'AT i' before each unit and 'HIT i' for the first match; a unit that hangs
+    ends the process (its threads cannot be trusted any more) - the parent resumes after it."""
+    for index in range(start, start + n):
+        print("AT", index, flush=True)
+        signal.alarm(20)
+        try:
+            if hasattr(mod, "unit"):
+                for _tp, o in mod.unit(index, a.seed, a.tier):
+                    if match(o):
+                        print("HIT", index, flush=True)
+                        os._exit(0)
+            else:
+                if match(mod.run(Tape(run_seed(a.seed, mod.ID, index)))):
+                    print("HIT", index, flush=True)
+                    os._exit(0)
+        except UnitTimeout:
+            os._exit(3)
+        except Exception:
+            os._exit(3)
+        finally:
+            signal.alarm(0)
+    os._exit(0)
+
+
+if a.scan:
+    _scan_child(a.scan[0], a.scan[1])
+
+first = a.index
+if a.search > 64:
+    # parallel scan (subprocesses, hard timeouts) for the first matching unit, then handle that unit here
+    import concurrent.futures as cf
+    import subprocess
+
+    def scan_range(start, n):
+        end = start + n
+        while start < end:
+            cmd = [sys.executable, os.path.abspath(__file__), a.prop, "0", a.id, a.status, a.text, "--seed", str(a.seed),
+                   "--tier", a.tier, "--scan", str(start), str(end - start)]
+            if a.sig:
+                cmd += ["--sig", a.sig]
+            try:
+                p_ = subprocess.run(cmd, capture_output=True, text=True, timeout=40 + 4 * (end - start), env=os.environ)
+                outp = p_.stdout
+                rc = p_.returncode
+            except subprocess.TimeoutExpired as e_:
+                outp = (e_.stdout or b"").decode() if isinstance(e_.stdout, bytes) else (e_.stdout or "")
+                rc = 3
+            last = start
+            for line in outp.splitlines():
+                if line.startswith("HIT "):
+                    return int(line.split()[1])
+                if line.startswith("AT "):
+                    last = int(line.split()[1])
+            if rc == 0:
+                return None
+            start = last + 1  # skip the unit that hung / broke the process
+        return None
+
+    chunk = 25
+    jobs = [(s_, min(chunk, a.index + a.search - s_)) for s_ in range(a.index, a.index + a.search, chunk)]
+    hit = None
+    with cf.ThreadPoolExecutor(14) as ex:
+        futs = [ex.submit(scan_range, *j_) for j_ in jobs]
+        for f_ in futs:
+            r_ = f_.result()
+            if r_ is not None:
+                hit = r_
+                for g_ in futs:
+                    g_.cancel()
+                break
+    if hit is None:
+        sys.exit("no matching violation found")
+    first = hit
+for index in range(first, first + (1 if a.search > 64 else max(a.search, 1))):
+    # a pre-fix tree may hang on a unit (F4: a loop over a list that the loop itself extends): skip such units
+    signal.alarm(20)
+    try:
+        if hasattr(mod, "unit"):
+            for tp, o in mod.unit(index, a.seed, a.tier):
+                if match(o):
+                    found = (tp, o)
+                    break
+        else:
+            tp = Tape(run_seed(a.seed, mod.ID, index))
+            o = mod.run(tp)
             if match(o):
                 found = (tp, o)
-                break
-    else:
-        tp = Tape(run_seed(a.seed, mod.ID, index))
-        o = mod.run(tp)
-        if match(o):
-            found = (tp, o)
+    except UnitTimeout:
+        print("unit", index, "timed out, skipped")
+        continue
+    finally:
+        signal.alarm(0)
     if found:
         print("unit", index)
         break
@@ -72,7 +169,19 @@ if not found:
     sys.exit("no matching violation found")
 tp, o = found
 print("found", o.sig, "known=", o.known)
-streams, runs = minimise(mod.run, tp.to_json()["streams"], tuple(o.sig), o.known, **getattr(mod, "MINIMISE", {}))
+def safe_run(tape):
+    signal.alarm(20)
+    try:
+        return mod.run(tape)
+    except UnitTimeout:
+        from sim.core import Outcome
+
+        return Outcome()
+    finally:
+        signal.alarm(0)
+
+
+streams, runs = minimise(safe_run, tp.to_json()["streams"], tuple(o.sig), o.known, **getattr(mod, "MINIMISE", {}))
 o2 = mod.run(Tape(streams=streams))
 print("minimised in", runs, "runs ->", {k: len(v) for k, v in streams.items()}, o2.sig, o2.known)
 print(json.dumps(o2.decoded, indent=1, default=repr)[:1200])
